@@ -793,7 +793,11 @@ func (r *run) check(out *simrt.Outcome, st *core.Stats) *core.Violation {
 	// publish, subscribe or unsubscribe call can be blocked when the run has ended
 	if sc.Timeout > 0 {
 		for _, a := range out.Alive {
-			if strings.HasPrefix(a.SpawnSite, "chans.") {
+			// a goroutine of the library that is still trying to hand something over (a
+			// send, or a select with a send case); one that sits waiting to receive its
+			// next command - a dispatcher, a pump with nothing to do - is not blocked in
+			// a hand-off
+			if strings.HasPrefix(a.SpawnSite, "chans.") && (a.Op == "chan.send" || (a.Op == "select" && strings.Contains(a.ParkedOn, "send:"))) {
 				return &core.Violation{Signature: "blocked-despite-timeout", Detail: fmt.Sprintf("a sender goroutine started by %s never finished although PubTimeoutAfter is %v: %s", a.SpawnSite, time.Duration(sc.Timeout), strings.Join(out.StuckTasks, ", "))}
 			}
 		}
@@ -824,7 +828,13 @@ func (r *run) check(out *simrt.Outcome, st *core.Stats) *core.Violation {
 	libAlive := 0
 	for _, a := range out.Alive {
 		if strings.HasPrefix(a.SpawnSite, "chans.") {
-			libAlive++
+			// a goroutine of the library that only waits for its next command (parked in
+			// a receive, a receive-only select or a condition variable) has no hand-off
+			// under way: it does not keep the accounting open
+			idle := a.Op == "chan.recv" || a.Op == "cond.Wait" || (a.Op == "select" && !strings.Contains(a.ParkedOn, "send:"))
+			if !idle {
+				libAlive++
+			}
 		}
 	}
 	byTok := map[int]*callRec{}
